@@ -601,6 +601,14 @@ type RKnownAt struct {
 
 func (a *RKnownAt) Equal(rule R, check *CrossFileEqualityCheck) bool {
 	b, ok := rule.(*RKnownAt)
+
+	// The linker wraps the rules of "@import ... layer(...)" in an "@layer"
+	// rule of this type. Like "RAtLayer", it's never a removable duplicate
+	// because an earlier copy also determines the order of the layers.
+	if ok && strings.EqualFold(a.AtToken, "layer") {
+		return false
+	}
+
 	return ok && strings.EqualFold(a.AtToken, b.AtToken) && TokensEqual(a.Prelude, b.Prelude, check) && RulesEqual(a.Rules, b.Rules, check)
 }
 
